@@ -17,7 +17,8 @@ def lu (tables pool : List Bytes) : String :=
 
 def stepHostsRefresh (toks : List String) : Option String :=
   match toks with
-  | ["hrefresh", variant, f1, f2, pool] =>
+  | [op, variant, f1, f2, pool] =>
+    if op ≠ "hrefresh" ∧ op ≠ "lrefresh" then none else
     match parseNames f1, parseNames f2, parseNames pool with
     | some n1, some n2, some pl =>
       -- (result of the refresh right after the rewrite, result of the one after it)
